@@ -43,7 +43,8 @@ theorem mkFragment_rowParsed {oid : Nat} {name : Str} {s e strand : Int} {tags :
 
 /-- `agpFields` adds a row that is a gap or a checked fragment -/
 theorem agpFields_row {st : ParseState} {fields : List Str} {st' : ParseState} (h : agpFields st fields = .ok st') :
-    ∃ name r st'', (st.switchScaffold name).addRow r = .ok st'' ∧ st'.scaffolds = st''.scaffolds ∧ RowParsed r := by
+    ∃ name r st'', (st.switchScaffold name).addRow r = .ok st'' ∧ st'.scaffolds = st''.scaffolds ∧ RowParsed r ∧
+      st'.currentName = st''.currentName ∧ st'.haveScaffold = st''.haveScaffold := by
   unfold agpFields at h
   simp only [bind, Except.bind] at h
   cases h0 : pyGet fields 0 with
@@ -72,7 +73,7 @@ theorem agpFields_row {st : ParseState} {fields : List Str} {st' : ParseState} (
               | error e => rw [hi] at h; cases h
               | ok len =>
                 rw [hi] at h; simp only at h
-                exact ⟨_, st', h, rfl, trivial⟩
+                exact ⟨_, st', h, rfl, trivial, rfl, rfl⟩
         · cases h5 : pyGet fields 5 with
           | error e => rw [h5] at h; cases h
           | ok f5 =>
@@ -111,12 +112,13 @@ theorem agpFields_row {st : ParseState} {fields : List Str} {st' : ParseState} (
                             rw [ha] at h
                             simp only [pure, Except.pure, Except.ok.injEq] at h
                             subst h
-                            exact ⟨_, st'', ha, rfl, mkFragment_rowParsed hm⟩
+                            exact ⟨_, st'', ha, rfl, mkFragment_rowParsed hm, rfl, rfl⟩
 
 /-- `tpfFields` adds a row that is a gap or a checked fragment (`name = none`: a gap line, no scaffold switch) -/
 theorem tpfFields_row {st : ParseState} {fields : List Str} {st' : ParseState} (h : tpfFields st fields = .ok st') :
     ∃ (st0 : ParseState) (r : Row) (st'' : ParseState), (st0 = st ∨ ∃ name, st0 = st.switchScaffold name) ∧
-      st0.addRow r = .ok st'' ∧ st'.scaffolds = st''.scaffolds ∧ RowParsed r := by
+      st0.addRow r = .ok st'' ∧ st'.scaffolds = st''.scaffolds ∧ RowParsed r ∧
+      st'.currentName = st''.currentName ∧ st'.haveScaffold = st''.haveScaffold := by
   unfold tpfFields at h
   simp only [bind, Except.bind] at h
   cases h0 : pyGet fields 0 with
@@ -140,7 +142,7 @@ theorem tpfFields_row {st : ParseState} {fields : List Str} {st' : ParseState} (
             | error e => rw [hi] at h; cases h
             | ok len =>
               rw [hi] at h; simp only at h
-              exact ⟨st, _, st', Or.inl rfl, h, rfl, trivial⟩
+              exact ⟨st, _, st', Or.inl rfl, h, rfl, trivial, rfl, rfl⟩
     · split at h
       · cases h2 : pyGet fields 2 with
         | error e => rw [h2] at h; cases h
@@ -182,7 +184,7 @@ theorem tpfFields_row {st : ParseState} {fields : List Str} {st' : ParseState} (
                             rw [ha] at h
                             simp only [pure, Except.pure, Except.ok.injEq] at h
                             subst h
-                            exact ⟨_, _, st'', Or.inr ⟨f2, rfl⟩, ha, rfl, mkFragment_rowParsed hm⟩
+                            exact ⟨_, _, st'', Or.inr ⟨f2, rfl⟩, ha, rfl, mkFragment_rowParsed hm, rfl, rfl⟩
             · simp [throw, throwThe, MonadExceptOf.throw] at h
       · simp [throw, throwThe, MonadExceptOf.throw] at h
 
@@ -224,7 +226,7 @@ theorem parseAgpLine_rowsParsed (st : ParseState) (line : Str) (st' : ParseState
       · rw [if_pos h1] at h
         split at h <;> (cases h; exact hp)
       · rw [if_neg h1] at h
-        obtain ⟨name, r, st'', ha, e1, hr⟩ := agpFields_row h
+        obtain ⟨name, r, st'', ha, e1, hr, _, _⟩ := agpFields_row h
         rw [e1]
         exact addRow_rowsParsed (switchScaffold_rowsParsed st name hp) hr ha
 
@@ -238,7 +240,7 @@ theorem parseTpfLine_rowsParsed (st : ParseState) (line : Str) (st' : ParseState
     · rw [if_pos h1] at h
       split at h <;> (cases h; exact hp)
     · rw [if_neg h1] at h
-      obtain ⟨st0, r, st'', h0, ha, e1, hr⟩ := tpfFields_row h
+      obtain ⟨st0, r, st'', h0, ha, e1, hr, _, _⟩ := tpfFields_row h
       rw [e1]
       rcases h0 with rfl | ⟨name, rfl⟩
       · exact addRow_rowsParsed hp hr ha
